@@ -135,6 +135,9 @@ def job(args):
             open(os.path.join(wd, "in.l"), "w", errors="surrogateescape").write(spec)
             if mode == "o":
                 rc, err = run_flex(flex.exe, wd, list(opts) + ["-o", "o.c", "in.l"], env)
+            elif mode == "to":
+                # scanner to stdout, named by -o: the shell writes the same o.c that flex would have
+                rc, err = run_flex(flex.exe, wd, list(opts) + ["-t", "-o", "o.c", "in.l"], env, stdout_to="o.c")
             else:
                 rc, err = run_flex(flex.exe, wd, list(opts) + ["-t", "in.l"], env, stdout_to="o.c")
             res["runs"] += 1
@@ -182,6 +185,15 @@ def job(args):
             for f in out0:
                 if f != "o.c" and out0[f] != out.get(f):
                     res["diffs"].append(("stdout", "%s differs between -o and -t runs" % f))
+        # ... and with -t -o FILE the manual promises directives that refer to FILE: then nothing at all may differ (round-5 seed C18-r5m3)
+        rc, err, out = one("stdout-named", {}, mode="to")
+        if rc != rc0:
+            res["diffs"].append(("stdout-named", "exit status %d with -t -o o.c instead of %d: %s" % (rc, rc0, err[-200:])))
+        elif "o.c" in out0 and out.get("o.c") != out0["o.c"]:
+            a, b = out0["o.c"], out.get("o.c", b"")
+            i = next((k for k in range(min(len(a), len(b))) if a[k] != b[k]), min(len(a), len(b)))
+            res["diffs"].append(("stdout-named", "the scanner written by 'flex -t -o o.c > o.c' differs from the one written by 'flex -o o.c', at line %d: %r vs %r" % (
+                a.count(b"\n", 0, i) + 1, a[i:i + 40], b[i:i + 40])))
         res["files"] = sorted(out0)
         return res
     finally:
